@@ -52,6 +52,8 @@ class LoopParser(SubParser):
         code_gen.jump_back(loop_top)
         code_gen.if_end(exit_loop_marker)
         context_stack.fix_break_addrs(code_gen)
+        if self._loop_type.is_iter():
+            self._pop_leftover_names(code_gen)
         code_gen.add_instruction(OpCode.END_LOOP)
         context_stack.exit_loop()
         return True
@@ -294,13 +296,27 @@ class LoopParser(SubParser):
 
     def _loop_body(self, code_gen) -> bool:
         if self._loop_type.is_iter():
+            # The counter is the number of names still on the stack.
             code_gen.add_instruction(OpCode.POP, self._light_var)
+            code_gen.minus_equals(LoopVar.COUNTER, 1)
         return self.parser.command_seq()
+
+    def _pop_leftover_names(self, code_gen) -> None:
+        # After a break, the names that were not visited are still on the
+        # stack, where an enclosing loop would take them for its own.
+        top = code_gen.mark()
+        code_gen.test_op(Operator.GT, LoopVar.COUNTER, 0)
+        marker = code_gen.if_true_start()
+        code_gen.add_instruction(OpCode.POP, self._light_var)
+        code_gen.minus_equals(LoopVar.COUNTER, 1)
+        code_gen.jump_back(top)
+        code_gen.if_end(marker)
 
     def _loop_post(self, code_gen) -> bool:
         if self._loop_type in (_LoopType.INFINITE, _LoopType.WHILE):
             return True
-        code_gen.minus_equals(LoopVar.COUNTER, 1)
+        if not self._loop_type.is_iter():
+            code_gen.minus_equals(LoopVar.COUNTER, 1)
         if self._index_var is not None:
             code_gen.plus_equals(self._index_var, LoopVar.INCR)
         return True
